@@ -228,6 +228,50 @@ class Real:
                 out.append("%s:%d:%d" % (i[0] if i else "?", classes.index(type(obj)), self.sargs_index(args, kwargs)))
         return out
 
+    @staticmethod
+    def puml_options(o):
+        """fresh option tables (the library compiles show_attrs in place)"""
+        from edgegraph.structure import DirectedEdge, UnDirectedEdge
+        vdef = lambda typ="object", fmt="$id": {  # noqa: E731
+            "type": typ, "show_attrs": ["a.*"], "title_format": fmt,
+            "stereotype_skinparams": {"BackgroundColor": "White"}}
+        opts = {"skinparams": {"dpi": "300"}, Vertex: vdef(),
+                DirectedEdge: {"v1side": "", "v2side": ">"}, UnDirectedEdge: {"v1side": "", "v2side": ""}}
+        if o == 1:
+            opts[pool.SV] = vdef("class")
+            opts[pool.DD] = {"v1side": "<", "v2side": ">"}
+        elif o == 2:
+            opts[Vertex] = vdef(fmt="T{a0}")
+        elif o == 3:
+            opts[pool.X] = {"v1side": "o", "v2side": "o"}
+        return opts
+
+    def parse_puml(self, text):
+        """parse the source back into declaration and relation records (titles -> tokens)"""
+        import re
+        assert text.startswith("@startuml\n") and text.endswith("@enduml\n"), "not enclosed in @startuml/@enduml"
+        ids = {hex(id(v)): "id%d" % i for i, v in enumerate(self.V)}
+
+        def tok(t):
+            if t in ids:
+                return ids[t]
+            m = re.fullmatch(r"T(.*)", t)
+            if m:
+                for k, reps in VALREPS.items():
+                    if any(str(r) == m.group(1) for r in reps):
+                        return "T%d" % k
+            return t
+        decls, rels = [], []
+        for line in text.split("\n"):
+            m = re.fullmatch(r"(\S+) (\S+) <<(\w+)>> \{", line)
+            if m:
+                decls.append("%s %s <<%s>>" % (m.group(1), tok(m.group(2)), m.group(3)))
+                continue
+            m = re.fullmatch(r"(\S+) (\S*)--(\S*) (\S+)", line)
+            if m:
+                rels.append("%s %s--%s %s" % (tok(m.group(1)), m.group(2), m.group(3), tok(m.group(4))))
+        return "decls=[%s] rels=[%s]" % (",".join(decls), ",".join(sorted(rels)))
+
     def register_built(self, u, pairs, nL):
         """register the universe, its law set and the links a builder created; `pairs` lists the
         (v1, v2) entries in the order the builder is documented to create their links, and the
@@ -591,6 +635,45 @@ class Real:
                 self.reg_v(v)
             pairs = [(members[i], members[j]) for i, (_r, smp) in enumerate(draws) for j in smp]
             return "ok V%d" % self.register_built(u, pairs, len(self.L))
+        if op == "plain":
+            from edgegraph.output import plaintext
+            u = self.pv(toks[1])
+            code = lambda x: 0 if x is None else self.vname(x) + 1  # noqa: E731
+            if toks[2] == "repr":
+                rf = None
+            else:
+                rf = lambda x: "none" if x is None else "v%d" % self.vname(x)  # noqa: E731
+            sort = None
+            if toks[3] != "-":
+                k = int(toks[3])
+                sort = lambda x: (code(x) * (k + 1)) % 7  # noqa: E731
+            r = plaintext.basic_render(u, rfunc=rf, sort=sort)
+            if r is None:
+                return "ok none"
+            if rf is None:
+                for v in self.V:
+                    r = r.replace(repr(v), "r%d" % self.vname(v))
+            return "ok " + r.replace("\n", "|")
+        if op == "puml":
+            from edgegraph.output import plantuml
+            u = self.pv(toks[1])
+            try:
+                r = plantuml.render_to_plantuml_src(u, self.puml_options(int(toks[2])))
+            except Exception:  # noqa: BLE001
+                return "err Error"
+            if r is None:
+                return "ok none"
+            return "ok " + self.parse_puml(r)
+        if op == "pyvis":
+            from edgegraph.output import pyvis as egpyvis
+            u = self.pv(toks[1])
+            rv = lambda v: "v%d" % self.vname(v)  # noqa: E731
+            re_ = None if toks[2] == "-" else (lambda e: "e%d" % self.lname(e))
+            net = egpyvis.make_pyvis_net(u, rv, re_)
+            nodes = ",".join("%s:%s" % (n["id"], n["label"]) for n in net.nodes)
+            edges = ",".join("%s%s%s:%s" % (e["from"], ">" if e.get("arrows") == "to" else "-", e["to"],
+                                            e.get("title", "-")) for e in net.get_edges())
+            return "ok nodes=[%s] edges=[%s]" % (nodes, edges)
         if op in ("tsnew", "ssnew"):
             classes = self.TS if op == "tsnew" else self.SS
             args, kwargs = SARGS[int(toks[2][1:])]
